@@ -11,7 +11,7 @@ from hypothesis import strategies as st
 from pbt import strategies as S
 from pbt.common import Stats, Sub, Violation
 from pbt.model import norm_records
-from pbt.sut import Converter, curies, dump_records, mk_records
+from pbt.sut import BUILD_MODES, Converter, curies, dump_records, mk_converter_via, mk_records
 
 PROPERTY_ID = "C14"
 RULE = (
@@ -60,7 +60,8 @@ def _records(draw, *, prefix_strat, uri_strat, pattern_strat, min_records=0, max
 @st.composite
 def cases(draw, tier="quick", fmt=None):
     fmt = fmt or draw(st.sampled_from(["epm", "jsonld", "shacl", "tsv"]))
-    case = {"format": fmt, "include_synonyms": draw(st.booleans()), "expand": draw(st.booleans()), "as_str_path": draw(st.booleans())}
+    case = {"format": fmt, "include_synonyms": draw(st.booleans()), "expand": draw(st.booleans()), "as_str_path": draw(st.booleans()),
+            "build": draw(st.sampled_from(BUILD_MODES))}
     if fmt == "epm":
         uni = st.one_of(st.text(S.UNICODE, max_size=5), S.txt("ab\r\n\t\"\\é\x00\x85\u2028", max_size=4))
         case["records"] = draw(_records(prefix_strat=uni, uri_strat=uni, pattern_strat=st.one_of(st.sampled_from(PATTERNS + [""]), st.text(S.UNICODE, max_size=4))))
@@ -93,7 +94,9 @@ def _classify(case, stats):
 def check(case, stats: Stats) -> None:
     stats.ev()
     fmt, recs = case["format"], case["records"]
-    conv = Converter(mk_records(recs))
+    # the converter is reached through different histories (at once / grown by merges / chain): what is written must not
+    # depend on how the records came to hold their synonyms
+    conv = mk_converter_via({"delimiter": ":", "records": recs}, case.get("build", "at-once"))
     inc = case["include_synonyms"]
     ext = {"epm": "json", "jsonld": "jsonld", "shacl": "ttl", "tsv": "tsv"}[fmt]
     path = _path(ext)
